@@ -218,7 +218,7 @@ def merge_same_name(h):
              note=f'files after the merge: {sorted(nc)}; inputs were {sorted(before)}')
 
 
-@unit('C09', 'merge.refusals', FUNCS)
+@unit('C09', 'merge.refusals', FUNCS, replay='contracts.C09:replay')
 def merge_refusals(h):
     kind = h.choice(2)
     if kind == 0:
@@ -500,6 +500,25 @@ def replay(payload):
                             problems.append(f'{names}: get_flight({f_id}) wrong')
                     except Exception as e:   # noqa
                         problems.append(f'{names}: index {i}: {type(e).__name__}: {e}')
+        # mixed lists (identified and unidentified stores) are refused whatever the order of the inputs
+        for order in ('UI', 'IU', 'UUI', 'UIU'):
+            d = os.path.join(tmp, 'mixed' + order)
+            os.mkdir(d)
+            names = []
+            for j, kind in enumerate(order):
+                TrajectoryStore.active_in_thread = None
+                nm = os.path.join(d, f'm{j}.nc')
+                with TrajectoryStore.create(base_file=nm) as ts:
+                    ts.add(_mk(j, fid=(500 + j) if kind == 'I' else None))
+                names.append(nm)
+            TrajectoryStore.active_in_thread = None
+            try:
+                TrajectoryStore.merge(os.path.join(d, 'out.aeic-store'), names)
+                problems.append(f'inputs {order} (I = identified, U = unidentified store) were merged, a mixed list must be refused')
+            except ValueError:
+                pass
+            except Exception as e:   # noqa
+                problems.append(f'inputs {order}: {type(e).__name__}: {e}')
         # inputs whose species-indexed values use different species: each part has its own species dimension
         from AEIC.storage import Dimension, Dimensions, FieldMetadata, FieldSet
         from AEIC.types import Species, SpeciesValues
